@@ -442,6 +442,7 @@ def l_e2e(ctx, res, cov, jinja2):
     diffs = 0
     gates_hist = {}
     races = [0]
+    skipped = []
     asyncio_checked = 0
     per_scenario = ctx.pick(6, 14)
     for si, templates in enumerate(sets):
@@ -458,7 +459,8 @@ def l_e2e(ctx, res, cov, jinja2):
                     solo_cache[key] = (r[0], len(tr) - 1)
                 solo.append(solo_cache[key])
             if any(s[0][0] != "ok" for s in solo):
-                raise core.HarnessError(f"generated template does not render alone: {[s[0] for s in solo]} {templates}")
+                skipped.append([s[0] for s in solo])
+                continue
             gates = sum(s[1] for s in solo)
             gates_hist[min(gates, 40) // 5 * 5] = gates_hist.get(min(gates, 40) // 5 * 5, 0) + 1
 
@@ -516,7 +518,10 @@ def l_e2e(ctx, res, cov, jinja2):
                         res.violate("C37:concurrent-differs-from-alone",
                                     f"under asyncio task {i} ({names[i]}) rendered {r!r} but {s[0]!r} alone; templates {templates}",
                                     {"templates": templates, "tasks": names, "schedule": payload[1], "task": i, "asyncio": True})
-    cov["e2e"] = {"template_sets": len(sets), "schedules": schedules, "distinct_schedules": len(distinct),
+    if len(skipped) > max(2, len(sets) // 4):
+        raise core.HarnessError(f"too many generated scenarios do not render alone: {skipped[:2]}")
+    cov["e2e"] = {"scenarios_skipped_because_a_template_does_not_render_alone": len(skipped),
+                  "template_sets": len(sets), "schedules": schedules, "distinct_schedules": len(distinct),
                   "differences": diffs, "shared_attribute_writes_observed": writes_seen, "gates_per_scenario_histogram": gates_hist,
                   "features": g.features, "schedules_repeated_under_asyncio": asyncio_checked,
                   "schedules_in_which_a_module_was_built_and_assigned_more_than_once": races[0]}
